@@ -99,3 +99,7 @@ def run(F, rep, tier):
     rep.floor("C17-R3", "pattern traversal arms with sub-pattern fields", n, 3)
     from rules.loopshape import c17_break_only_after_transition
     c17_break_only_after_transition(F, rep)
+    from rules.loopshape import trial_env_fresh
+    trial_env_fresh(F, rep, "C17-R6", {"execute_fsm_pipe_impl"}, 2)
+    from rules.loopshape import c17_state_set_from_arms
+    c17_state_set_from_arms(F, rep)
